@@ -83,6 +83,7 @@ pub fn reset() {
         }
         ROLE_CHILD = false;
         CHILD_RETURNED_FROM_EXIT = false;
+        EXIT_CHECK = None;
         PATHLOG_LEN = 0;
     }
 }
@@ -362,6 +363,17 @@ pub fn role_is_child() -> bool {
     unsafe { ROLE_CHILD }
 }
 
+/// called by the EXIT contract just before the path ends (the process is gone): lets a harness
+/// state what must hold *at* exit (e.g. what the child reported through the sync pipe)
+pub static mut EXIT_CHECK: Option<fn()> = None;
+
+pub fn set_exit_check(f: fn()) {
+    unsafe { EXIT_CHECK = Some(f) }
+}
+
+/// bytes a READ of the process contract delivers (the other end's message)
+pub const READ_FILL_CAP: usize = 8;
+
 // ---- path log (mkdir family) ----------------------------------------------------------------------
 pub const PATHLOG_CAP: usize = 8;
 pub const PATH_MAX_LOGGED: usize = 16;
@@ -518,8 +530,28 @@ pub unsafe fn dispatch(n: usize, args: [usize; 7], nargs: u8) -> usize {
         kani::assume(!ok);
         let _ = ok;
         ret = choose_err();
+    } else if mode & MODE_PROC != 0 && n == nr::READ {
+        // the peer's message: k <= min(len, 8) arbitrary bytes, or an error
+        let fail = choose(3) != 0;
+        if fail {
+            ret = choose_err();
+        } else {
+            let k = choose(7);
+            #[cfg(kani)]
+            kani::assume(k <= args[2] && k <= READ_FILL_CAP);
+            let out = args[1] as *mut u8;
+            let mut i = 0;
+            while i < k && i < READ_FILL_CAP {
+                *out.add(i) = choose(8) as u8;
+                i += 1;
+            }
+            ret = k;
+        }
     } else if mode & MODE_PROC != 0 && (n == nr::EXIT || n == nr::EXIT_GROUP) {
         record(n, args, nargs, 0);
+        if let Some(f) = EXIT_CHECK {
+            f();
+        }
         // the process is gone: this path ends here
         #[cfg(kani)]
         kani::assume(false);
